@@ -54,3 +54,13 @@ func bImplies(a, b bool) bool
 
 // symKey returns the text the executor's fmt model prints for x (the decimal value natively).
 func symKey(x uint64) string
+
+// runUntilCrash runs f; a call to crashNow inside f ends it the way a process kill
+// would (no deferred call runs) and is reported as true.
+func runUntilCrash(f func()) bool
+func crashNow()
+
+// scratchDir returns a directory for files the harness creates ("" under gosym, where the
+// in-memory file system is used; a fresh temporary directory natively); scratchDone removes it.
+func scratchDir() string
+func scratchDone(dir string)
